@@ -18,14 +18,13 @@ Decided:
   R20.d  the parsed branch is reachable: from_string has a normal return path that does not depend on an
          unbound name (follows from R20.a), constructs cls(<type>, <message>, ...) from the two sides of the
          ``partition(':')`` of the exception line, and to_dict exports the keys the template's {#parsed_err} block
-         reads; evaluated on four standard tracebacks (builtin, module-qualified and __main__ exception classes, text
-         and bytes, a SyntaxError report) the parser names exactly the exception type and message (the evaluator
-         understands a side-effect free subset of Python; outside it this part is declined, never guessed).
+         reads (the parser is never run on sample tracebacks: which strings it accepts as the exception line is a
+         value-level question and is declined, DESIGN.md 10.2).
   R20.e  the launcher (server.py) builds the failsafe from what it collected: the function calling flaw.create_app
          passes its own (error text, file list) parameters in that order, and the list restart_with_reloader hands to
          the error hook is filled *in place* from the child's report -- no nested function or helper rebinds it as a
          local of its own.
-Declined: "answers 200 for every text" over non-text inputs; traceback grammars beyond the evaluated samples.
+Declined: "answers 200 for every text" over non-text inputs; which traceback texts the parser recognises.
 
 The constructs are located by role: the Application(...) call create_app returns, its routes / resources /
 render_factory arguments followed through single-assignment locals, module-level constants and straight-line list
@@ -1470,7 +1469,8 @@ def _partition_side(repo, fi, expr, depth=0):
 def _parsed_branch(rep, fs):
     flaw = fs.flaw
     td = flaw.func('_ParsedTB.to_dict')
-    confirmed = getattr(fs, 'evaluated', 0) > 0 and not getattr(fs, 'evaluation_failed', 0)
+    rep.rule('R20.d', '_ParsedTB.to_dict exports what {#parsed_err} reads; from_string has a normal return and is fed type and message')
+    confirmed = False      # (the parser is never run on sample tracebacks: shapes only)
     need = {'exc_type', 'exc_msg'}
     try:
         td_keys = None
@@ -1529,723 +1529,6 @@ def _parsed_branch(rep, fs):
         (confirmed and asg.get('self.exc_type') != ps[2] and asg.get('self.exc_msg') != ps[1])
     rep.check('R20.d', fkey(init, 'fields'), ok, 'constructor stores type and message in the matching fields' if ok else
               'constructor cross-wires exc_type / exc_msg: %r' % asg, flaw, init.node)
-
-
-# ------------------------------------------------------------------------------------------------ R20.d by evaluation
-# A small evaluator for the traceback parser: the (normalised) body of from_string is run on a few standard
-# tracebacks with concrete values.  Only a whitelisted, side-effect free subset of Python is understood (assignments,
-# if / while / for / try, str / list / dict / re operations, calls of functions of the analysed module); anything
-# else makes the evaluation give up (``_Unknown``) and the judgement is declined -- it never guesses.
-import re as _re
-
-
-class _Unknown(Exception):
-    pass
-
-
-class _Raised(Exception):
-    def __init__(self, name, detail=''):
-        Exception.__init__(self, '%s: %s' % (name, detail))
-        self.name, self.detail = name, detail
-
-
-class _FuncVal(object):
-    def __init__(self, fi, bound=None, node=None, closure=None):
-        self.fi, self.bound, self.node, self.closure = fi, bound, node, closure
-
-    @property
-    def qualname(self):
-        return self.fi.qualname if self.fi is not None else self.node.name
-
-
-class _ClassVal(object):
-    def __init__(self, ci):
-        self.ci = ci
-
-
-class _ModVal(object):
-    def __init__(self, name):
-        self.name = name
-
-
-class _Instance(object):
-    def __init__(self, cls):
-        self.cls, self.attrs = cls, {}
-
-
-class _Method(object):
-    """``obj.name`` of an ordinary value, not yet called."""
-    def __init__(self, obj, name):
-        self.obj, self.name = obj, name
-
-
-class _ExcClass(object):
-    def __init__(self, name):
-        self.name = name
-
-
-class _Property(object):
-    def __init__(self, fi):
-        self.fi = fi
-
-
-_BUILTIN_VALUES = {'str': str, 'bytes': bytes, 'int': int, 'list': list, 'tuple': tuple, 'dict': dict, 'bool': bool, 'float': float,
-                   'set': set, 'frozenset': frozenset, 'bytearray': bytearray, 'object': object, 'len': len, 'range': range,
-                   'reversed': reversed, 'enumerate': enumerate, 'zip': zip, 'isinstance': isinstance, 'min': min, 'max': max,
-                   'sorted': sorted, 'any': any, 'all': all, 'sum': sum, 'abs': abs, 'repr': repr, 'getattr': getattr, 'hasattr': hasattr, 'next': next, 'iter': iter}
-_EXC_NAMES = ('BaseException', 'Exception', 'ValueError', 'TypeError', 'IndexError', 'KeyError', 'AttributeError', 'LookupError',
-              'UnicodeDecodeError', 'UnicodeError', 'RuntimeError', 'StopIteration', 'AssertionError', 'NotImplementedError')
-_PLAIN = (type(None), bool, int, float, str, bytes, list, tuple, dict, set, frozenset, range)
-_STR_METHODS = {'lstrip', 'rstrip', 'strip', 'split', 'rsplit', 'splitlines', 'partition', 'rpartition', 'startswith', 'endswith',
-                'find', 'rfind', 'index', 'rindex', 'count', 'replace', 'lower', 'upper', 'isidentifier', 'isalpha', 'isalnum',
-                'isdigit', 'isspace', 'istitle', 'isupper', 'islower', 'join', 'encode', 'decode', 'title', 'capitalize',
-                'expandtabs', 'zfill', 'casefold', 'removeprefix', 'removesuffix', 'format', 'isascii', 'isnumeric', 'isdecimal',
-                'swapcase', 'center', 'ljust', 'rjust'}
-_LIST_METHODS = {'pop', 'append', 'extend', 'insert', 'reverse', 'index', 'count', 'copy', 'remove', 'clear'}
-_DICT_METHODS = {'get', 'items', 'keys', 'values', 'update', 'setdefault', 'pop', 'copy'}
-_SET_METHODS = {'add', 'discard', 'union', 'intersection', 'difference', 'copy', 'update'}
-_PATTERN_METHODS = {'match', 'search', 'fullmatch', 'findall', 'split', 'sub'}
-_MATCH_METHODS = {'groupdict', 'group', 'groups', 'start', 'end', 'span'}
-_RE_ATTRS = {'compile', 'match', 'search', 'fullmatch', 'split', 'sub', 'findall', 'escape', 'I', 'IGNORECASE', 'M', 'MULTILINE',
-             'S', 'DOTALL', 'X', 'VERBOSE', 'U', 'UNICODE', 'A', 'ASCII'}
-_PATTERN_T, _MATCH_T = type(_re.compile('')), type(_re.match('', ''))
-_ITERATOR_TYPES = ('reversed', 'list_reverseiterator', 'enumerate', 'zip', 'dict_items', 'dict_keys', 'dict_values', 'list_iterator',
-                   'tuple_iterator', 'str_ascii_iterator', 'str_iterator', 'range_iterator', 'dict_keyiterator')
-
-
-def _plain(v, depth=0):
-    """The value is ordinary data all the way down (safe to hand to a real builtin / method)."""
-    if depth > 6:
-        return False
-    if isinstance(v, (list, tuple, set, frozenset)):
-        return all(_plain(x, depth + 1) for x in v)
-    if isinstance(v, dict):
-        return all(_plain(k, depth + 1) and _plain(x, depth + 1) for k, x in v.items())
-    return isinstance(v, _PLAIN) or isinstance(v, (_PATTERN_T, _MATCH_T))
-
-
-class _Eval(object):
-    MAX_STEPS = 40000
-
-    def __init__(self, repo, mod):
-        self.repo, self.mod = repo, mod
-        self.steps = 0
-        self._consts = {}
-        self._handling = []
-
-    # -- helpers ---------------------------------------------------------------------------------------------
-    def _tick(self):
-        self.steps += 1
-        if self.steps > self.MAX_STEPS:
-            raise _Unknown('step budget exhausted')
-
-    def _real(self, fn, *args, **kw):
-        try:
-            return fn(*args, **kw)
-        except (_Unknown, _Raised):
-            raise
-        except RecursionError:
-            raise _Unknown('recursion')
-        except Exception as e:
-            raise _Raised(type(e).__name__, str(e))
-
-    def global_value(self, name, depth=0):
-        if name in self._consts:
-            return self._consts[name]
-        mod = self.mod
-        v = _Unknown
-        if name in mod.functions and '.' not in name:
-            v = _FuncVal(mod.functions[name])
-        elif name in mod.classes and '.' not in name:
-            v = _ClassVal(mod.classes[name])
-        elif name in mod.imports:
-            modname, attr = mod.imports[name]
-            if modname == 're' and attr is None:
-                v = _ModVal('re')
-            elif modname == 're' and attr in _RE_ATTRS:
-                v = getattr(_re, attr)
-        elif name in mod.assigns:
-            vals = [x for x in mod.assigns[name]]
-            if len(vals) == 1 and isinstance(vals[0], ast.expr) and depth < 6:
-                v = self.expr(vals[0], {}, depth + 1)
-            elif len(vals) == 1 and vals[0] is None and depth < 6:
-                # A, B = 'a', 'b' at module level
-                for st in mod.tree.body:
-                    if isinstance(st, ast.Assign) and len(st.targets) == 1 and isinstance(st.targets[0], (ast.Tuple, ast.List)) and \
-                            any(isinstance(t, ast.Name) and t.id == name for t in st.targets[0].elts):
-                        tmp = {}
-                        self.assign(st.targets[0], self.expr(st.value, {}, depth + 1), tmp, depth + 1)
-                        v = tmp.get(name, _Unknown)
-        elif name in _BUILTIN_VALUES:
-            v = _BUILTIN_VALUES[name]
-        elif name in _EXC_NAMES:
-            v = _ExcClass(name)
-        if v is _Unknown:
-            raise _Unknown('global name %s' % name)
-        self._consts[name] = v
-        return v
-
-    # -- functions -------------------------------------------------------------------------------------------
-    def call_function(self, fv, args, kwargs, depth):
-        if depth > 8:
-            raise _Unknown('call depth')
-        class _F(object):
-            pass
-        fi = _F()
-        fi.node = fv.node if fv.node is not None else fv.fi.node
-        fi.qualname = fv.qualname
-        a = fi.node.args
-        if a.vararg or a.kwarg or a.posonlyargs:
-            raise _Unknown('signature of %s' % fi.qualname)
-        if any(not (isinstance(d, ast.Name) and d.id in ('classmethod', 'staticmethod', 'property')) for d in fi.node.decorator_list):
-            raise _Unknown('decorated function %s' % fi.qualname)
-        if any(isinstance(n, (ast.Yield, ast.YieldFrom, ast.Await, ast.Nonlocal, ast.Global)) for n in ast.walk(fi.node)):
-            raise _Unknown('generator / nonlocal in %s' % fi.qualname)
-        names = [x.arg for x in a.args]
-        args = list(args)
-        if fv.bound is not None:
-            args.insert(0, fv.bound)
-        if len(args) > len(names):
-            raise _Raised('TypeError', 'too many arguments for %s' % fi.qualname)
-        env = dict(zip(names, args))
-        outer = dict(fv.closure) if fv.closure is not None else {}
-        for k, v in kwargs.items():
-            if k in env or k not in names + [x.arg for x in a.kwonlyargs]:
-                raise _Raised('TypeError', 'bad keyword %s for %s' % (k, fi.qualname))
-            env[k] = v
-        defaults = dict(zip(names[len(names) - len(a.defaults):], a.defaults))
-        for x, d in zip(a.kwonlyargs, a.kw_defaults):
-            if d is not None:
-                defaults[x.arg] = d
-        for n in names + [x.arg for x in a.kwonlyargs]:
-            if n not in env:
-                if n not in defaults:
-                    raise _Raised('TypeError', 'missing argument %s for %s' % (n, fi.qualname))
-                env[n] = self.expr(defaults[n], outer, depth + 1)
-        if outer:
-            # a nested function reads the enclosing variables as they are when it is called; its own assignments stay its own
-            stored = set(n.id for n in ast.walk(fi.node) if isinstance(n, ast.Name) and isinstance(n.ctx, ast.Store))
-            for k, v in outer.items():
-                if k not in env and k not in stored:
-                    env[k] = v
-        sig = self.block(fi.node.body, env, depth + 1)
-        if sig is not None and sig[0] == 'return':
-            return sig[1]
-        return None
-
-    def construct(self, cv, args, kwargs, depth):
-        inst = _Instance(cv)
-        init = self.repo.find_method(cv.ci, '__init__')
-        if init is None:
-            if args or kwargs:
-                raise _Raised('TypeError', 'object() takes no arguments')
-            return inst
-        if init.mod.external:
-            raise _Unknown('external __init__')
-        self.call_function(_FuncVal(init, bound=inst), args, kwargs, depth)
-        return inst
-
-    def class_attr(self, cv, attr, receiver):
-        """Attribute looked up on a class (receiver: the class value itself, or an instance)."""
-        m = self.repo.find_method(cv.ci, attr)
-        if m is None:
-            owner, val = self.repo.class_attr(cv.ci, attr)
-            if owner is not None and isinstance(val, ast.expr) and not owner.mod.external and owner.mod is self.mod:
-                key = ('class-attr', owner.qualname, attr)
-                if key not in self._consts:
-                    self._consts[key] = self.expr(val, {}, 1)
-                return self._consts[key]
-        if m is None or m.mod.external:
-            raise _Unknown('attribute %s of %s' % (attr, cv.ci.name))
-        decos = [d.id for d in m.node.decorator_list if isinstance(d, ast.Name)]
-        if 'staticmethod' in decos:
-            return _FuncVal(m)
-        if 'classmethod' in decos:
-            return _FuncVal(m, bound=cv)
-        if 'property' in decos:
-            if isinstance(receiver, _Instance):
-                return _Property(m)
-            raise _Unknown('property on class')
-        return _FuncVal(m, bound=receiver if isinstance(receiver, _Instance) else None)
-
-    # -- statements ------------------------------------------------------------------------------------------
-    def block(self, stmts, env, depth):
-        for st in stmts:
-            sig = self.stmt(st, env, depth)
-            if sig is not None:
-                return sig
-        return None
-
-    def assign(self, target, value, env, depth):
-        if isinstance(target, ast.Name):
-            env[target.id] = value
-        elif isinstance(target, (ast.Tuple, ast.List)):
-            if any(isinstance(e, ast.Starred) for e in target.elts):
-                raise _Unknown('starred target')
-            if not isinstance(value, (list, tuple, str)) and not _plain(value):
-                raise _Unknown('unpacking %s' % type(value).__name__)
-            vals = self._real(list, value)
-            if len(vals) != len(target.elts):
-                raise _Raised('ValueError', 'unpack %d into %d' % (len(vals), len(target.elts)))
-            for t, v in zip(target.elts, vals):
-                self.assign(t, v, env, depth)
-        elif isinstance(target, ast.Subscript):
-            obj = self.expr(target.value, env, depth)
-            if not isinstance(obj, (list, dict)):
-                raise _Unknown('item store into %s' % type(obj).__name__)
-            key = self.slice_of(target.slice, env, depth)
-            self._real(obj.__setitem__, key, value)
-        elif isinstance(target, ast.Attribute):
-            obj = self.expr(target.value, env, depth)
-            if not isinstance(obj, _Instance):
-                raise _Unknown('attribute store on %s' % type(obj).__name__)
-            obj.attrs[target.attr] = value
-        else:
-            raise _Unknown('assignment target %s' % type(target).__name__)
-
-    def stmt(self, st, env, depth):
-        self._tick()
-        if isinstance(st, ast.Expr):
-            self.expr(st.value, env, depth)
-            return None
-        if isinstance(st, ast.Assign):
-            v = self.expr(st.value, env, depth)
-            for t in st.targets:
-                self.assign(t, v, env, depth)
-            return None
-        if isinstance(st, ast.AnnAssign):
-            if st.value is not None:
-                self.assign(st.target, self.expr(st.value, env, depth), env, depth)
-            return None
-        if isinstance(st, ast.AugAssign):
-            cur = self.expr(ast.copy_location(_as_load(st.target), st), env, depth)
-            v = self.binop(st.op, cur, self.expr(st.value, env, depth), inplace=True)
-            self.assign(st.target, v, env, depth)
-            return None
-        if isinstance(st, ast.Pass):
-            return None
-        if isinstance(st, ast.FunctionDef):
-            if st.decorator_list:
-                raise _Unknown('decorated nested function')
-            env[st.name] = _FuncVal(None, node=st, closure=env)
-            return None
-        if isinstance(st, ast.Return):
-            return ('return', self.expr(st.value, env, depth) if st.value is not None else None)
-        if isinstance(st, ast.Break):
-            return ('break',)
-        if isinstance(st, ast.Continue):
-            return ('continue',)
-        if isinstance(st, ast.If):
-            return self.block(st.body if self.truth(self.expr(st.test, env, depth)) else st.orelse, env, depth)
-        if isinstance(st, ast.While):
-            while self.truth(self.expr(st.test, env, depth)):
-                self._tick()
-                sig = self.block(st.body, env, depth)
-                if sig is not None:
-                    if sig[0] == 'break':
-                        return None
-                    if sig[0] == 'return':
-                        return sig
-            return self.block(st.orelse, env, depth)
-        if isinstance(st, ast.For):
-            it = self.iterate(self.expr(st.iter, env, depth))
-            for v in it:
-                self._tick()
-                self.assign(st.target, v, env, depth)
-                sig = self.block(st.body, env, depth)
-                if sig is not None:
-                    if sig[0] == 'break':
-                        return None
-                    if sig[0] == 'return':
-                        return sig
-            return self.block(st.orelse, env, depth)
-        if isinstance(st, ast.Raise):
-            if st.exc is None:
-                if self._handling:
-                    raise self._handling[-1]
-                raise _Raised('RuntimeError', 'no active exception')
-            e = st.exc
-            if isinstance(e, ast.Call):
-                for a_ in e.args:
-                    self.expr(a_, env, depth)
-                e = e.func
-            if isinstance(e, ast.Name) and e.id in env and isinstance(env[e.id], _Raised):
-                raise env[e.id]
-            raise _Raised(norm(e))
-        if isinstance(st, ast.Assert):
-            if not self.truth(self.expr(st.test, env, depth)):
-                raise _Raised('AssertionError')
-            return None
-        if isinstance(st, ast.Try):
-            return self.try_(st, env, depth)
-        if isinstance(st, ast.Delete):
-            for t in st.targets:
-                if isinstance(t, ast.Subscript):
-                    obj = self.expr(t.value, env, depth)
-                    if not isinstance(obj, (list, dict)):
-                        raise _Unknown('del on %s' % type(obj).__name__)
-                    self._real(obj.__delitem__, self.slice_of(t.slice, env, depth))
-                elif isinstance(t, ast.Name):
-                    env.pop(t.id, None)
-                else:
-                    raise _Unknown('del target')
-            return None
-        raise _Unknown('statement %s' % type(st).__name__)
-
-    def try_(self, st, env, depth):
-        from ..astutil import exc_supertypes
-        sig = None
-        try:
-            try:
-                sig = self.block(st.body, env, depth)
-            except _Raised as r:
-                from ..astutil import EXC_PARENTS
-                sup = set(exc_supertypes(r.name)) | {'Exception', 'BaseException'}
-                if r.name not in EXC_PARENTS and any(h.type is not None and norm(h.type) not in ('Exception', 'BaseException')
-                                                    for h in st.handlers):
-                    raise _Unknown('handler match for exception class %s' % r.name)
-                for h in st.handlers:
-                    names = None if h.type is None else ([norm(e) for e in h.type.elts] if isinstance(h.type, ast.Tuple) else [norm(h.type)])
-                    if names is None or any(n in sup for n in names):
-                        if h.name:
-                            env[h.name] = r
-                        self._handling.append(r)
-                        try:
-                            sig = self.block(h.body, env, depth)
-                        finally:
-                            self._handling.pop()
-                        break
-                else:
-                    raise
-            else:
-                if sig is None:
-                    sig = self.block(st.orelse, env, depth)
-        finally:
-            if st.finalbody:
-                fsig = self.block(st.finalbody, env, depth)
-                if fsig is not None:
-                    sig = fsig
-        return sig
-
-    # -- expressions -----------------------------------------------------------------------------------------
-    def truth(self, v):
-        if isinstance(v, (_Instance, _FuncVal, _ClassVal, _ModVal, _Method, _ExcClass)) or type(v).__name__ in _ITERATOR_TYPES:
-            return True
-        if not _plain(v) and not isinstance(v, _Raised):
-            raise _Unknown('truth of %s' % type(v).__name__)
-        return bool(v)
-
-    def iterate(self, v):
-        if isinstance(v, (list, tuple, str, bytes, dict, set, frozenset, range)) or type(v).__name__ in _ITERATOR_TYPES:
-            return v
-        raise _Unknown('iteration over %s' % type(v).__name__)
-
-    def slice_of(self, s, env, depth):
-        if isinstance(s, ast.Slice):
-            return slice(self.expr(s.lower, env, depth) if s.lower is not None else None,
-                         self.expr(s.upper, env, depth) if s.upper is not None else None,
-                         self.expr(s.step, env, depth) if s.step is not None else None)
-        return self.expr(s, env, depth)
-
-    def binop(self, op, l, r, inplace=False):
-        if not (_plain(l) and _plain(r)):
-            raise _Unknown('operator on %s / %s' % (type(l).__name__, type(r).__name__))
-        import operator as _op
-        table = {ast.Add: _op.add, ast.Sub: _op.sub, ast.Mult: _op.mul, ast.Mod: _op.mod, ast.FloorDiv: _op.floordiv,
-                 ast.BitOr: _op.or_, ast.BitAnd: _op.and_, ast.Div: _op.truediv}
-        if inplace and isinstance(l, list) and isinstance(op, ast.Add):
-            self._real(l.extend, r)
-            return l
-        fn = table.get(type(op))
-        if fn is None:
-            raise _Unknown('operator %s' % type(op).__name__)
-        if isinstance(op, ast.Mult) and isinstance(l, int) and isinstance(r, int) and abs(l * r) > 10 ** 6:
-            raise _Unknown('large number')
-        return self._real(fn, l, r)
-
-    def compare(self, op, l, r):
-        if isinstance(op, (ast.Is, ast.IsNot)):
-            res = l is r
-            return res if isinstance(op, ast.Is) else not res
-        if not (_plain(l) and _plain(r)):
-            if isinstance(op, (ast.Eq, ast.NotEq)):
-                res = l is r
-                return res if isinstance(op, ast.Eq) else not res
-            raise _Unknown('comparison of %s / %s' % (type(l).__name__, type(r).__name__))
-        import operator as _op
-        table = {ast.Eq: _op.eq, ast.NotEq: _op.ne, ast.Lt: _op.lt, ast.LtE: _op.le, ast.Gt: _op.gt, ast.GtE: _op.ge,
-                 ast.In: lambda a, b: a in b, ast.NotIn: lambda a, b: a not in b}
-        return self._real(table[type(op)], l, r)
-
-    def expr(self, e, env, depth):
-        self._tick()
-        if isinstance(e, ast.Constant):
-            return e.value
-        if isinstance(e, ast.Name):
-            if e.id in env:
-                return env[e.id]
-            return self.global_value(e.id, depth)
-        if isinstance(e, (ast.List, ast.Tuple, ast.Set)):
-            if any(isinstance(x, ast.Starred) for x in e.elts):
-                raise _Unknown('starred element')
-            vals = [self.expr(x, env, depth) for x in e.elts]
-            return vals if isinstance(e, ast.List) else tuple(vals) if isinstance(e, ast.Tuple) else self._real(set, vals)
-        if isinstance(e, ast.Dict):
-            if any(k is None for k in e.keys):
-                raise _Unknown('dict unpacking')
-            out = {}
-            for k, v in zip(e.keys, e.values):
-                self._real(out.__setitem__, self.expr(k, env, depth), self.expr(v, env, depth))
-            return out
-        if isinstance(e, ast.BoolOp):
-            v = None
-            for x in e.values:
-                v = self.expr(x, env, depth)
-                if isinstance(e.op, ast.And) and not self.truth(v):
-                    return v
-                if isinstance(e.op, ast.Or) and self.truth(v):
-                    return v
-            return v
-        if isinstance(e, ast.UnaryOp):
-            v = self.expr(e.operand, env, depth)
-            if isinstance(e.op, ast.Not):
-                return not self.truth(v)
-            if isinstance(e.op, ast.USub) and isinstance(v, (int, float)):
-                return -v
-            if isinstance(e.op, ast.UAdd) and isinstance(v, (int, float)):
-                return +v
-            raise _Unknown('unary operator')
-        if isinstance(e, ast.BinOp):
-            return self.binop(e.op, self.expr(e.left, env, depth), self.expr(e.right, env, depth))
-        if isinstance(e, ast.Compare):
-            l = self.expr(e.left, env, depth)
-            for op, c in zip(e.ops, e.comparators):
-                r = self.expr(c, env, depth)
-                if not self.compare(op, l, r):
-                    return False
-                l = r
-            return True
-        if isinstance(e, ast.IfExp):
-            return self.expr(e.body if self.truth(self.expr(e.test, env, depth)) else e.orelse, env, depth)
-        if isinstance(e, ast.Subscript):
-            obj = self.expr(e.value, env, depth)
-            if not isinstance(obj, (list, tuple, str, bytes, dict, _MATCH_T)):
-                raise _Unknown('subscript of %s' % type(obj).__name__)
-            return self._real(obj.__getitem__, self.slice_of(e.slice, env, depth))
-        if isinstance(e, ast.JoinedStr):
-            parts = []
-            for v in e.values:
-                if isinstance(v, ast.Constant):
-                    parts.append(str(v.value))
-                elif isinstance(v, ast.FormattedValue) and v.format_spec is None and v.conversion in (-1, 115, 114):
-                    x = self.expr(v.value, env, depth)
-                    if not _plain(x):
-                        raise _Unknown('f-string value')
-                    parts.append(repr(x) if v.conversion == 114 else str(x))
-                else:
-                    raise _Unknown('f-string format')
-            return ''.join(parts)
-        if isinstance(e, ast.GeneratorExp):
-            # evaluated eagerly (the subset has no side effects); an exception inside might never have been reached lazily
-            try:
-                return iter(self.comprehension(e, env, depth))
-            except _Raised as r:
-                raise _Unknown('exception %s inside a generator expression' % r.name)
-        if isinstance(e, (ast.ListComp, ast.SetComp, ast.DictComp)):
-            return self.comprehension(e, env, depth)
-        if isinstance(e, ast.Attribute):
-            return self.attribute(e, env, depth)
-        if isinstance(e, ast.Call):
-            return self.call(e, env, depth)
-        raise _Unknown('expression %s' % type(e).__name__)
-
-    def comprehension(self, e, env, depth):
-        out = []
-        inner = dict(env)
-
-        def rec(i):
-            if i == len(e.generators):
-                if isinstance(e, ast.DictComp):
-                    out.append((self.expr(e.key, inner, depth), self.expr(e.value, inner, depth)))
-                else:
-                    out.append(self.expr(e.elt, inner, depth))
-                return
-            g = e.generators[i]
-            if g.is_async:
-                raise _Unknown('async comprehension')
-            for v in self.iterate(self.expr(g.iter, inner, depth)):
-                self._tick()
-                self.assign(g.target, v, inner, depth)
-                if all(self.truth(self.expr(c, inner, depth)) for c in g.ifs):
-                    rec(i + 1)
-        rec(0)
-        if isinstance(e, ast.DictComp):
-            return self._real(dict, out)
-        if isinstance(e, ast.SetComp):
-            return self._real(set, out)
-        return out
-
-    def attribute(self, e, env, depth):
-        obj = self.expr(e.value, env, depth)
-        if isinstance(obj, _ModVal):
-            if obj.name == 're' and e.attr in _RE_ATTRS:
-                return getattr(_re, e.attr)
-            raise _Unknown('%s.%s' % (obj.name, e.attr))
-        if isinstance(obj, _Instance):
-            if e.attr in obj.attrs:
-                return obj.attrs[e.attr]
-            v = self.class_attr(obj.cls, e.attr, obj)
-            if isinstance(v, _Property):
-                return self.call_function(_FuncVal(v.fi, bound=obj), [], {}, depth + 1)
-            return v
-        if isinstance(obj, _ClassVal):
-            return self.class_attr(obj, e.attr, obj)
-        if not _plain(obj):
-            raise _Unknown('attribute %s of %s' % (e.attr, type(obj).__name__))
-        return _Method(obj, e.attr)
-
-    def call(self, e, env, depth):
-        f = self.expr(e.func, env, depth)
-        args, kwargs = [], {}
-        for a in e.args:
-            if isinstance(a, ast.Starred):
-                seq = self.expr(a.value, env, depth)
-                if not isinstance(seq, (list, tuple)):
-                    raise _Unknown('star argument of %s' % type(seq).__name__)
-                args.extend(seq)
-            else:
-                args.append(self.expr(a, env, depth))
-        for k in e.keywords:
-            if k.arg is None:
-                d = self.expr(k.value, env, depth)
-                if not isinstance(d, dict) or not all(isinstance(x, str) for x in d):
-                    raise _Unknown('double-star argument')
-                kwargs.update(d)
-            else:
-                kwargs[k.arg] = self.expr(k.value, env, depth)
-        if isinstance(f, _FuncVal):
-            return self.call_function(f, args, kwargs, depth + 1)
-        if isinstance(f, _ClassVal):
-            return self.construct(f, args, kwargs, depth + 1)
-        if isinstance(f, _Method):
-            obj, name = f.obj, f.name
-            ok = (isinstance(obj, (str, bytes)) and name in _STR_METHODS) or (isinstance(obj, list) and name in _LIST_METHODS) or \
-                (isinstance(obj, dict) and name in _DICT_METHODS) or (isinstance(obj, (set, frozenset)) and name in _SET_METHODS) or \
-                (isinstance(obj, _PATTERN_T) and name in _PATTERN_METHODS) or (isinstance(obj, _MATCH_T) and name in _MATCH_METHODS) or \
-                (isinstance(obj, tuple) and name in ('index', 'count'))
-            if obj is None or (_plain(obj) and not ok and not hasattr(obj, name)):
-                raise _Raised('AttributeError', '%s has no attribute %s' % (type(obj).__name__, name))
-            if not ok or not all(_plain(a) for a in args) or not all(_plain(v) for v in kwargs.values()):
-                raise _Unknown('method %s of %s' % (name, type(obj).__name__))
-            return self._real(getattr(obj, name), *args, **kwargs)
-        if isinstance(f, _ExcClass):
-            return _Raised(f.name, ' '.join(str(a) for a in args if _plain(a)))
-        if f is getattr or f is hasattr:
-            if kwargs or len(args) not in ((2, 3) if f is getattr else (2,)) or not isinstance(args[1], str):
-                raise _Unknown('getattr arity')
-            obj = args[0]
-            if not isinstance(obj, _Instance):
-                raise _Unknown('getattr on %s' % type(obj).__name__)
-            try:
-                if args[1] in obj.attrs:
-                    v = obj.attrs[args[1]]
-                else:
-                    v = self.class_attr(obj.cls, args[1], obj)
-                    if isinstance(v, _Property):
-                        v = self.call_function(_FuncVal(v.fi, bound=obj), [], {}, depth + 1)
-            except _Unknown:
-                # not a known attribute: AttributeError (hasattr False, getattr default)
-                if f is hasattr:
-                    return False
-                if len(args) == 3:
-                    return args[2]
-                raise _Raised('AttributeError', args[1])
-            return True if f is hasattr else v
-        if f is isinstance:
-            if len(args) != 2 or kwargs:
-                raise _Unknown('isinstance arity')
-            ts = args[1] if isinstance(args[1], tuple) else (args[1],)
-            if not all(isinstance(t, type) for t in ts):
-                if any(isinstance(t, _ClassVal) for t in ts):
-                    return isinstance(args[0], _Instance) and any(isinstance(t, _ClassVal) and t.ci is args[0].cls.ci for t in ts)
-                raise _Unknown('isinstance type')
-            return isinstance(args[0], ts)
-        if f in (len, range, reversed, enumerate, zip, min, max, sorted, any, all, sum, abs, repr, str, bytes, int, list, tuple, dict,
-                 bool, float, set, frozenset, next, iter) or (getattr(f, '__module__', None) == 're' and getattr(f, '__name__', '') in _RE_ATTRS):
-            if not all(_plain(a) or type(a).__name__ in _ITERATOR_TYPES for a in args) or not all(_plain(v) for v in kwargs.values()):
-                raise _Unknown('builtin on %s' % [type(a).__name__ for a in args])
-            if f is range and args and any(isinstance(a, int) and abs(a) > 10 ** 6 for a in args):
-                raise _Unknown('large range')
-            return self._real(f, *args, **kwargs)
-        raise _Unknown('call of %s' % short(e.func, 40))
-
-
-def _as_load(t):
-    import copy
-    t2 = copy.deepcopy(t)
-    for n in ast.walk(t2):
-        if hasattr(n, 'ctx'):
-            n.ctx = ast.Load()
-    return t2
-
-
-_TB_SAMPLES = (
-    ('builtin exception',
-     u'\nTraceback (most recent call last):\n  File "example.py", line 2, in <module>\n    plarp\nNameError: name \'plarp\' is not defined\n',
-     'NameError', "name 'plarp' is not defined"),
-    ('module-qualified exception',
-     u'Traceback (most recent call last):\n  File "/srv/app/main.py", line 10, in <module>\n    main()\n'
-     u'  File "/srv/app/main.py", line 6, in main\n    json.loads(\'\')\n'
-     u'json.decoder.JSONDecodeError: Expecting value: line 1 column 1 (char 0)\n',
-     'json.decoder.JSONDecodeError', 'Expecting value: line 1 column 1 (char 0)'),
-    ('exception of the main module, as bytes',
-     b'Traceback (most recent call last):\n  File "serve.py", line 31, in <module>\n    app = build_app(load_config())\n'
-     b'  File "serve.py", line 17, in load_config\n    raise ConfigError(\'missing section [server]\')\n'
-     b'__main__.ConfigError: missing section [server]\n',
-     '__main__.ConfigError', 'missing section [server]'),
-    ('syntax error report',
-     u'  File "app.py", line 3\n    def f(:\n          ^\nSyntaxError: invalid syntax\n',
-     'SyntaxError', 'invalid syntax'),
-)
-
-
-def _parser_semantics(rep, fs):
-    """R20.d (2): run the parser on standard tracebacks: the heading must name the exception type and message."""
-    repo, flaw = fs.repo, fs.flaw
-    rep.rule('R20.d', '_ParsedTB.to_dict exports what {#parsed_err} reads; from_string has a normal return and names type and message')
-    pc = flaw.classes.get(PARSER_CLASS)
-    fsf = flaw.functions.get('%s.from_string' % PARSER_CLASS)
-    tdf = flaw.functions.get('%s.to_dict' % PARSER_CLASS)
-    if pc is None or fsf is None or tdf is None:
-        raise AnalysisError('traceback parser %s.from_string / to_dict not found' % PARSER_CLASS)
-    fs.evaluated, fs.evaluation_failed = 0, 0
-    for label, text, want_type, want_msg in _TB_SAMPLES:
-        ev = _Eval(repo, flaw)
-        key = fkey(fsf, 'standard traceback: %s' % label)
-        try:
-            cv = _ClassVal(pc)
-            obj = ev.call_function(_FuncVal(fsf, bound=cv), [text], {}, 0)
-            if not isinstance(obj, _Instance):
-                raise _Unknown('from_string returned %s' % type(obj).__name__)
-            d = ev.call_function(_FuncVal(tdf, bound=obj), [], {}, 0)
-            if not isinstance(d, dict):
-                raise _Unknown('to_dict returned %s' % type(d).__name__)
-        except _Unknown as u:
-            rep.notes.append('R20.d evaluation of the parser on a %s declined: %s' % (label, u))
-            continue
-        except _Raised as r:
-            fs.evaluation_failed += 1
-            rep.fail('R20.d', key, 'the parser raises %s on a standard traceback (%s): the page falls back to the raw last line '
-                     'instead of naming %s' % (r.name, label, want_type), flaw, fsf.node)
-            continue
-        got_type, got_msg = d.get('exc_type'), d.get('exc_msg')
-        ok = isinstance(got_type, str) and isinstance(got_msg, str) and got_type.strip() == want_type and got_msg.strip() == want_msg
-        fs.evaluated += 1
-        fs.evaluation_failed += 0 if ok else 1
-        rep.check('R20.d', key, ok,
-                  'parsed heading is %r / %r' % (want_type, want_msg) if ok else
-                  'for a standard traceback ending in "%s: %s" the parsed heading is %r / %r' % (want_type, want_msg, got_type, got_msg),
-                  flaw, fsf.node)
 
 
 # ------------------------------------------------------------------------------------------------ R20.e the launcher
@@ -2437,6 +1720,5 @@ def run(rep):
     _group(rep, _file_lists_kept, rep, fs)
     _group(rep, _shown_is_given, rep, fs)
     _group(rep, _template_escapes, rep, fs)
-    _group(rep, _parser_semantics, rep, fs)
     _group(rep, _parsed_branch, rep, fs)
     _group(rep, _launcher_handover, rep, fs)
